@@ -39,7 +39,10 @@ def run(repo, rep, tier):
     consumer_names = [m for _, m in cons]
     regex_node = repo.module_assign("tokenizer.py", "Tokenizer.STRING_REGEXES")
     regex_keys = [try_const(k) for k in regex_node.keys]
-    enders = try_const(repo.module_assign("tokenizer.py", "Tokenizer.TOKEN_ENDERS"))
+    try:
+        enders = try_const(repo.module_assign("tokenizer.py", "Tokenizer.TOKEN_ENDERS"))
+    except AnalysisError:
+        enders = None  # the flush may have moved into the consumers: decided per consumer below
 
     # ---- who-may-call: consumers are invoked only through the dispatcher in parse
     direct_calls = []
@@ -158,14 +161,34 @@ def run(repo, rep, tier):
     closers = next((c for c, m in cons if m == "parse_closer"), "")
     seps = next((c for c, m in cons if m == "parse_separator"), "")
     need_end = set(op_chars) | set(closers) | set(seps)
-    ok = isinstance(enders, str) and need_end <= set(enders)
-    rep.ob("C18.R2", cons_node, "every operator, closer and separator character ends the pending operand (TOKEN_ENDERS)", ok,
-           "" if ok else f"{sorted(need_end - set(enders or ''))} do not flush the token buffer: the operand text would be emitted after the operator", key="C18.R2@enders")
+    fl = [n for n in body_walk(parse) if isinstance(n, ast.If) and isinstance(n.test, ast.Compare) and len(n.test.ops) == 1 and isinstance(n.test.ops[0], ast.In)
+          and U(n.test.comparators[0]).endswith("TOKEN_ENDERS") and n.body and U(n.body[0]) == "self.save_token()"]
+    loop_flush = bool(fl) and bool(disp_calls) and cfgmod.dominates(parse, fl[0], disp_calls[0])
+    not_flushed = {}
+    for m, chars in (("parse_operator", op_chars), ("parse_closer", closers), ("parse_separator", seps)):
+        f = methods[m][0]
+        in_loop = loop_flush and isinstance(enders, str) and set(chars) <= set(enders)
+        emits = [c for c in body_walk(f) if isinstance(c, ast.Call) and U(c.func) == "self.items.append"]
+        saves = [c for c in body_walk(f) if isinstance(c, ast.Call) and U(c.func) == "self.save_token"]
+
+        def stmt_of(x):
+            while not isinstance(x, ast.stmt):
+                x = x._parent
+            return x
+        in_consumer = bool(emits) and all(cfgmod.precedes_on_all_paths(f, [stmt_of(sv) for sv in saves], stmt_of(e)) for e in emits) if saves else False
+        if not (in_loop or in_consumer):
+            late = [e for e in emits if not (saves and cfgmod.precedes_on_all_paths(f, [stmt_of(sv) for sv in saves], stmt_of(e)))]
+            not_flushed[m] = (sorted(set(chars) - set(enders or "")) if loop_flush else list(chars), late)
+    ok = not not_flushed
+    detail = ""
+    if not ok:
+        m, (chs, late) = next(iter(not_flushed.items()))
+        detail = (f"{m}: for {chs[:8]} neither the scanning loop nor the consumer saves the pending operand before the new token is emitted"
+                  + (f" (line {late[0].lineno})" if late else "") + ": the operand text would be emitted after the operator")
+    rep.ob("C18.R2", cons_node, "every operator, closer and separator character ends the pending operand before its own token is emitted", ok, detail, key="C18.R2@enders")
     ok = all(len(x) in (1, 2) and x[0] in set(op_chars) for x in two) and bool(two)
     rep.ob("C18.R2", po, f"two-character operators {two} start with registered operator characters", ok, "", key="C18.R2@two-char")
-    fl = [n for n in body_walk(parse) if isinstance(n, ast.If) and U(n.test) == "curr_char in self.TOKEN_ENDERS"]
-    ok = bool(fl) and U(fl[0].body[0]) == "self.save_token()" and disp_calls and cfgmod.dominates(parse, fl[0], disp_calls[0])
-    rep.ob("C18.R2", fl[0] if fl else parse, "pending operand is flushed before an ender is dispatched", bool(ok), "", key="C18.R2@flush-before-dispatch")
+    rep.ob("C18.R2", fl[0] if fl else parse, "pending operand is flushed before an ender is dispatched (in the loop or in every consumer)", ok, detail, key="C18.R2@flush-before-dispatch")
 
     # ---- R3 consumption accounting
     def returns_of(f):
